@@ -58,7 +58,7 @@ theorem dstep_resInv {c : DCfg} {s s' : DSt} {l : DLabel} (h : dstep c s l = som
       · simp only [List.mem_singleton] at hp
         subst hp
         rcases hps with hps | hps
-        · exact absurd hps hne
+        · simp [(hne hps).1]
         · simp [hcan hps]
     · intro hc
       simp only [Bool.or_eq_true, Bool.and_eq_true, beq_iff_eq] at hc
@@ -82,6 +82,9 @@ theorem dstep_resInv {c : DCfg} {s s' : DSt} {l : DLabel} (h : dstep c s l = som
       · have := href hr
         subst this
         exact ⟨i, List.mem_append_right _ (List.mem_singleton.mpr rfl)⟩
+  | closeSession i k =>
+    obtain ⟨ss, _, _, _, rfl⟩ := dstep_closeSession_inv h
+    exact ⟨hi.skipped, fun hc => hlogmono _ (hi.cause hc), hi.refused⟩
   | signal =>
     obtain ⟨_, _, rfl⟩ := dstep_signal_inv h
     exact ⟨fun _ _ _ => rfl, fun _ => Or.inl (by simp), hi.refused⟩
